@@ -136,6 +136,9 @@ func genC08(t *rapid.T) C08Case {
 	var s string
 	if kind == "codabar" {
 		n := rapid.IntRange(0, 40).Draw(t, "n")
+		if rapid.IntRange(0, 15).Draw(t, "long") == 0 {
+			n = rapid.IntRange(370, 900).Draw(t, "longn") // symbols wider than 4096 / 8192 modules
+		}
 		b := []byte{"ABCD"[rapid.IntRange(0, 3).Draw(t, "start")]}
 		for i := 0; i < n; i++ {
 			b = append(b, codabarAlphabet[rapid.IntRange(0, 15).Draw(t, "c")])
@@ -167,6 +170,9 @@ func genC08(t *rapid.T) C08Case {
 		}
 	} else {
 		n := rapid.IntRange(1, 60).Draw(t, "n")
+		if rapid.IntRange(0, 15).Draw(t, "long") == 0 {
+			n = rapid.IntRange(220, 700).Draw(t, "longn")
+		}
 		if kind == "itf" && rapid.IntRange(0, 4).Draw(t, "odd") > 0 {
 			n += n % 2
 		}
